@@ -72,6 +72,41 @@ func init() {
 			{Name: "rewrite: by-id disconnect of a connection that was just looked up by that id", Edits: []Edit{
 				{File: f, Old: "// handleReconnect attempts to reconnect to a peer.", New: "func (m *Manager) dropIfIdle(id identity.AgentID) {\n\tif c := m.GetPeer(id); c != nil && c.State() != StateConnected {\n\t\t_ = m.Disconnect(id)\n\t}\n}\n\n// handleReconnect attempts to reconnect to a peer."},
 			}},
+			// round 3: refactoring classes
+			{Name: "rewrite: locked part of registration in admit(conn) bool with deferred unlock", Edits: []Edit{
+				{File: f, Old: "func (m *Manager) registerConnection(conn *Connection) {\n\tm.mu.Lock()\n", New: "func (m *Manager) admit(conn *Connection) bool {\n\tm.mu.Lock()\n\tdefer m.mu.Unlock()\n"},
+				{File: f, Old: "\tcase <-m.ctx.Done():\n\t\tm.mu.Unlock()\n\t\tconn.Close()\n\t\treturn\n\tdefault:", New: "\tcase <-m.ctx.Done():\n\t\treturn false\n\tdefault:"},
+				{File: f, Old: "\t\t// This prevents connection churn when both sides connect simultaneously\n\t\tm.mu.Unlock()\n\t\tconn.Close()\n\t\treturn\n\t}\n", New: "\t\treturn false\n\t}\n"},
+				{File: f, Old: "\tm.wg.Add(2)\n\tm.mu.Unlock()\n\n\tgo m.readLoop(conn)\n", New: "\tm.wg.Add(2)\n\treturn true\n}\n\nfunc (m *Manager) registerConnection(conn *Connection) {\n\tif !m.admit(conn) {\n\t\tconn.Close()\n\t\treturn\n\t}\n\n\tgo m.readLoop(conn)\n"},
+			}},
+			{Name: "admit helper that reports success for a duplicate", ExpectRule: "C32.R2", Edits: []Edit{
+				{File: f, Old: "func (m *Manager) registerConnection(conn *Connection) {\n\tm.mu.Lock()\n", New: "func (m *Manager) admit(conn *Connection) bool {\n\tm.mu.Lock()\n\tdefer m.mu.Unlock()\n"},
+				{File: f, Old: "\tcase <-m.ctx.Done():\n\t\tm.mu.Unlock()\n\t\tconn.Close()\n\t\treturn\n\tdefault:", New: "\tcase <-m.ctx.Done():\n\t\treturn false\n\tdefault:"},
+				{File: f, Old: "\t\t// This prevents connection churn when both sides connect simultaneously\n\t\tm.mu.Unlock()\n\t\tconn.Close()\n\t\treturn\n\t}\n", New: "\t\treturn true\n\t}\n"},
+				{File: f, Old: "\tm.wg.Add(2)\n\tm.mu.Unlock()\n\n\tgo m.readLoop(conn)\n", New: "\tm.wg.Add(2)\n\treturn true\n}\n\nfunc (m *Manager) registerConnection(conn *Connection) {\n\tif !m.admit(conn) {\n\t\tconn.Close()\n\t\treturn\n\t}\n\n\tgo m.readLoop(conn)\n"},
+			}},
+			{Name: "rewrite: locked part of teardown in evict(conn) with named results and deferred unlock", Edits: []Edit{
+				{File: f, Old: "func (m *Manager) handleDisconnect(conn *Connection, err error) {\n\tm.mu.Lock()\n\t// Remove from peers map if this is still the active connection\n\tremoved := false\n", New: "func (m *Manager) evict(conn *Connection) (removed bool, configAddr string, peerInfo *PeerInfo) {\n\tm.mu.Lock()\n\tdefer m.mu.Unlock()\n"},
+				{File: f, Old: "\tvar peerInfo *PeerInfo\n\tconfigAddr := conn.ConfigAddr()\n", New: "\tconfigAddr = conn.ConfigAddr()\n"},
+				{File: f, Old: "\t\tpeerInfo = m.peerInfos[configAddr]\n\t}\n\tm.mu.Unlock()\n", New: "\t\tpeerInfo = m.peerInfos[configAddr]\n\t}\n\treturn removed, configAddr, peerInfo\n}\n\nfunc (m *Manager) handleDisconnect(conn *Connection, err error) {\n\tremoved, configAddr, peerInfo := m.evict(conn)\n"},
+			}},
+			{Name: "evict helper that reports a removal it did not make (named result)", ExpectRule: "C32.R3", ExpectKey: "OnPeerDisconnect", Edits: []Edit{
+				{File: f, Old: "func (m *Manager) handleDisconnect(conn *Connection, err error) {\n\tm.mu.Lock()\n\t// Remove from peers map if this is still the active connection\n\tremoved := false\n", New: "func (m *Manager) evict(conn *Connection) (removed bool, configAddr string, peerInfo *PeerInfo) {\n\tm.mu.Lock()\n\tdefer m.mu.Unlock()\n\tremoved = true\n"},
+				{File: f, Old: "\t\tdelete(m.peers, conn.RemoteID)\n\t\tremoved = true\n", New: "\t\tdelete(m.peers, conn.RemoteID)\n"},
+				{File: f, Old: "\tvar peerInfo *PeerInfo\n\tconfigAddr := conn.ConfigAddr()\n", New: "\tconfigAddr = conn.ConfigAddr()\n"},
+				{File: f, Old: "\t\tpeerInfo = m.peerInfos[configAddr]\n\t}\n\tm.mu.Unlock()\n", New: "\t\tpeerInfo = m.peerInfos[configAddr]\n\t}\n\treturn removed, configAddr, peerInfo\n}\n\nfunc (m *Manager) handleDisconnect(conn *Connection, err error) {\n\tremoved, configAddr, peerInfo := m.evict(conn)\n"},
+			}},
+			{Name: "rewrite: negated stale flag (De Morgan) instead of removed", Edits: []Edit{
+				{File: f, Old: "\tremoved := false\n\tif existing, ok := m.peers[conn.RemoteID]; ok && existing == conn {\n\t\tdelete(m.peers, conn.RemoteID)\n\t\tremoved = true\n\t}\n", New: "\tregistered, found := m.peers[conn.RemoteID]\n\tstale := !found || registered != conn\n\tif !stale {\n\t\tdelete(m.peers, conn.RemoteID)\n\t}\n"},
+				{File: f, Old: "\tif removed && m.cfg.OnPeerDisconnect != nil {\n\t\tm.cfg.OnPeerDisconnect(conn, err)", New: "\tif notify := m.cfg.OnPeerDisconnect; notify != nil && !stale {\n\t\tnotify(conn, err)"},
+			}},
+			{Name: "rewrite: accepted flag and a single rejection exit in registerConnection", Edits: []Edit{
+				{File: f, Old: "\tif _, ok := m.peers[conn.RemoteID]; ok {\n\t\t// Keep the existing connection, close the new one\n\t\t// This prevents connection churn when both sides connect simultaneously\n\t\tm.mu.Unlock()\n\t\tconn.Close()\n\t\treturn\n\t}\n\tm.peers[conn.RemoteID] = conn\n", New: "\taccepted := false\n\tif _, duplicate := m.peers[conn.RemoteID]; !duplicate {\n\t\taccepted = true\n\t}\n\tif !accepted {\n\t\tm.mu.Unlock()\n\t\tconn.Close()\n\t\treturn\n\t}\n\tm.peers[conn.RemoteID] = conn\n"},
+			}},
+			{Name: "rewrite: DisconnectAll takes the peers through a helper that always swaps the map", Edits: []Edit{
+				{File: f, Old: "func (m *Manager) DisconnectAll() error {\n\tm.mu.Lock()\n", New: "func (m *Manager) takeAllPeers() []*Connection {\n\tm.mu.Lock()\n\tdefer m.mu.Unlock()\n"},
+				{File: f, Old: "\tm.peers = make(map[identity.AgentID]*Connection)\n\tm.mu.Unlock()\n\n\t// Stop reconnector temporarily to prevent immediate reconnection\n", New: "\tm.peers = make(map[identity.AgentID]*Connection)\n\treturn conns\n}\n\nfunc (m *Manager) DisconnectAll() error {\n\tconns := m.takeAllPeers()\n\n\t// Stop reconnector temporarily to prevent immediate reconnection\n"},
+			}},
 			// rewrites
 			{Name: "rewrite: stale teardown returns early, delete dominates the callback", Edits: []Edit{
 				{File: f, Old: "\tremoved := false\n\tif existing, ok := m.peers[conn.RemoteID]; ok && existing == conn {\n\t\tdelete(m.peers, conn.RemoteID)\n\t\tremoved = true\n\t}\n", New: "\tremoved := true\n\tif existing := m.peers[conn.RemoteID]; conn != existing {\n\t\tm.mu.Unlock()\n\t\treturn\n\t}\n\tdelete(m.peers, conn.RemoteID)\n"},
@@ -154,6 +189,33 @@ func (cx *c32ctx) absentGuard(cond ssa.Value, pol bool, key ssa.Value) *ssa.Look
 		}
 		cond, pol = u.X, !pol
 	}
+	// `accepted` flag: every edge of the phi that can produce pol must establish absence
+	if ph, isPhi := cond.(*ssa.Phi); isPhi {
+		var lk *ssa.Lookup
+		for i, e := range ph.Edges {
+			bv, isC := kit.ConstBool(e)
+			if isC && bv != pol {
+				continue
+			}
+			var l *ssa.Lookup
+			if !isC {
+				l = cx.absentGuard(e, pol, key)
+			}
+			if l == nil {
+				for _, g := range kit.EdgeGuards(ph.Block().Preds[i], ph.Block()) {
+					if l2 := cx.absentGuard(g.Cond, g.Polarity, key); l2 != nil {
+						l = l2
+						break
+					}
+				}
+			}
+			if l == nil {
+				return nil
+			}
+			lk = l
+		}
+		return lk
+	}
 	if l, idx := cx.lookupOf(cond); l != nil && idx == 1 && !pol && c32SameKey(l.Index, key) {
 		return l
 	}
@@ -181,6 +243,31 @@ func (cx *c32ctx) identityGuard(cond ssa.Value, pol bool, key ssa.Value) (*ssa.L
 			break
 		}
 		cond, pol = u.X, !pol
+	}
+	// `stale := !found || registered != conn` as a value: every edge that can produce pol must imply it
+	if ph, isPhi := cond.(*ssa.Phi); isPhi {
+		var lk *ssa.Lookup
+		var x ssa.Value
+		for i, e := range ph.Edges {
+			if bv, isC := kit.ConstBool(e); isC && bv != pol {
+				continue
+			}
+			l, xv := cx.identityGuard(e, pol, key)
+			if l == nil {
+				// the edge itself may be guarded (a && b lowered to branches)
+				for _, g := range kit.EdgeGuards(ph.Block().Preds[i], ph.Block()) {
+					if l2, x2 := cx.identityGuard(g.Cond, g.Polarity, key); l2 != nil {
+						l, xv = l2, x2
+						break
+					}
+				}
+			}
+			if l == nil || (x != nil && xv != x) {
+				return nil, nil
+			}
+			lk, x = l, xv
+		}
+		return lk, x
 	}
 	b, ok := cond.(*ssa.BinOp)
 	if !ok || (b.Op != token.EQL && b.Op != token.NEQ) || (b.Op == token.EQL) != pol {
@@ -349,10 +436,78 @@ func runC32(p *kit.Program, r *kit.Report) {
 	}
 	r.Count("connection_goroutine_starts_and_connected_callbacks", len(starts))
 	r.Require(len(starts) >= 2, "floor: expected at least one goroutine start taking a *Connection and one OnPeerConnected call in peer.Manager (found %d)", len(starts))
+	// insertsParam: helper h returns true (result idx) only on paths that inserted its parameter pi
+	insertsParam := func(h *ssa.Function, idx, pi int) bool {
+		if pi >= len(h.Params) || len(insertOf[h]) == 0 {
+			return false
+		}
+		isIns := func(in ssa.Instruction) bool {
+			for _, ins := range insertOf[h] {
+				if ins.Instr == in && ins.Val == ssa.Value(h.Params[pi]) {
+					return true
+				}
+			}
+			return false
+		}
+		n := 0
+		for _, ret := range kit.Returns(h) {
+			if ret.Block() == h.Recover || idx >= len(ret.Results) {
+				continue
+			}
+			res := kit.ReturnResult(ret, idx)
+			if b, ok := kit.ConstBool(res); ok && !b {
+				continue
+			}
+			n++
+			if _, found := kit.PathAvoidingIf(h, ret, isIns, res, true); found {
+				return false
+			}
+		}
+		return n > 0
+	}
+	// dominatedByInsert: no condition-consistent path reaches site without the insertion of conn
+	// (dominance, an `accepted` flag set next to the insertion), or site is guarded by the true
+	// result of a helper that returns true only after inserting the connection it was given
 	dominatedByInsert := func(fn *ssa.Function, site ssa.Instruction, conn ssa.Value) bool {
+		var mine []ssa.Instruction
 		for _, ins := range insertOf[fn] {
-			if kit.Precedes(ins.Instr, site) && (conn == nil || ins.Val == conn) {
+			if conn == nil || ins.Val == conn {
+				mine = append(mine, ins.Instr)
+			}
+		}
+		if len(mine) > 0 {
+			if _, found := kit.PathAvoiding(fn, site, func(in ssa.Instruction) bool {
+				for _, m := range mine {
+					if m == in {
+						return true
+					}
+				}
+				return false
+			}); !found {
 				return true
+			}
+		}
+		for _, g := range kit.GuardsOf(site) {
+			cond, pol := g.Cond, g.Polarity
+			for {
+				u, ok := cond.(*ssa.UnOp)
+				if !ok || u.Op != token.NOT {
+					break
+				}
+				cond, pol = u.X, !pol
+			}
+			call, idx, ok := kit.ResultOf(cond)
+			if !ok || !pol {
+				continue
+			}
+			cal := kit.CalleeOf(call)
+			if cal.Static == nil || cal.Static.Blocks == nil {
+				continue
+			}
+			for pi, a := range call.Call.Args {
+				if (conn == nil || a == conn) && c32IsConnPtr(a.Type(), cx.connT) && insertsParam(cal.Static, idx, pi) {
+					return true
+				}
 			}
 		}
 		return false
@@ -437,7 +592,7 @@ func runC32(p *kit.Program, r *kit.Report) {
 	}
 
 	// ---- R3b disconnect notifications
-	removalIn := func(fn *ssa.Function) map[ssa.Instruction]bool {
+	directRemovals := func(fn *ssa.Function) map[ssa.Instruction]bool {
 		out := map[ssa.Instruction]bool{}
 		for _, acc := range cx.deletes {
 			if acc.Fn == fn {
@@ -447,6 +602,40 @@ func runC32(p *kit.Program, r *kit.Report) {
 		for _, acc := range cx.repls {
 			if acc.Fn == fn && acc.Kind == kit.FieldStore {
 				out[acc.Instr] = true
+			}
+		}
+		return out
+	}
+	// alwaysRemoves: every return of helper u is preceded by a removal (takeAllPeers)
+	alwaysMemo := map[*ssa.Function]bool{}
+	alwaysRemoves := func(u *ssa.Function) bool {
+		if v, ok := alwaysMemo[u]; ok {
+			return v
+		}
+		rem := directRemovals(u)
+		res := len(rem) > 0
+		n := 0
+		for _, ret := range kit.Returns(u) {
+			if ret.Block() == u.Recover {
+				continue
+			}
+			n++
+			if _, found := kit.PathAvoiding(u, ret, func(in ssa.Instruction) bool { return rem[in] }); found {
+				res = false
+			}
+		}
+		res = res && n > 0
+		alwaysMemo[u] = res
+		return res
+	}
+	removalIn := func(fn *ssa.Function) map[ssa.Instruction]bool {
+		out := directRemovals(fn)
+		for _, c := range kit.Calls(fn) {
+			if _, isCall := c.(*ssa.Call); !isCall {
+				continue
+			}
+			if cal := kit.CalleeOf(c); cal.Static != nil && cal.Static != fn && cal.Static.Blocks != nil && kit.FuncPkgPath(cal.Static) == kit.PkgPath("internal/peer") && alwaysRemoves(cal.Static) {
+				out[c] = true
 			}
 		}
 		return out
@@ -570,6 +759,10 @@ func runC32(p *kit.Program, r *kit.Report) {
 					if a == argConn {
 						seen = true
 					}
+				}
+				// ... or the connection the removing helper handed back (takePeer)
+				if c2, _, isRes := kit.ResultOf(argConn); isRes && c2 == hc {
+					seen = true
 				}
 				if !seen {
 					argOK, argWhy = false, "the reported connection is not the one handed to the helper that removed the registration"
